@@ -193,7 +193,9 @@ theorem ex_hugoniotAtom : HugoniotAtom eosIG (toData qEx) qEx.pr qEx.rr qEx.ur q
   rx_pos := by norm_num [aEx]
   ne := by norm_num [qEx, aEx]
   slope := by norm_num [qEx, aEx]
-  root := by simp only [shockJump, eosIG, qEx, aEx, epv_tree, epv_leaf]; norm_num
+  root := by
+    simp only [shockJump, eosIG, qEx, aEx, Bridge.Riem.shockJumpIG_eq, Bridge.Riem.jumpForm, Bool.false_eq_true, if_false]
+    norm_num
   vel := by
     simp only [RiemannGen.starVelocity, RiemannGen.isLeft, toData, qEx, aEx, num_ofNat, num_sqrt, num_beq, ex_sqrt1, ex_sqrt2]
     norm_num
